@@ -1025,7 +1025,7 @@ func zzStack() string {
 }
 `
 
-var safetyKinds = map[string]bool{"index": true, "slice": true, "nil": true, "nil.iface": true, "nil.func": true, "divzero": true, "typeassert": true, "makeslice": true, "panic": true, "shift.negative": true}
+var safetyKinds = map[string]bool{"index": true, "slice": true, "nil": true, "nil.iface": true, "nil.func": true, "divzero": true, "typeassert": true, "makeslice": true, "alloc": true, "panic": true, "shift.negative": true}
 
 // findClause returns the contract clause an ensures/preserves obligation was generated from.
 func findClause(sp *FuncSpec, o *Obl) (*Clause, bool) {
